@@ -185,6 +185,9 @@ def oracle_all(ctx, o, first_only=False):
             variants += [dict(base, ident=iv) for iv in (getattr(getattr(h, "wrapped", h), "ident_values", None) or ()) if "2x" not in iv]
         if name == "fshp":
             variants += [dict(base, variant=v) for v in (0, 1, 2, 3)]
+        if name == "scrypt":
+            # the settings fields of the $7$ layout are 30-bit integers in 5 hash64 digits: values that need the second and third digit
+            variants += [dict(base, ident=iv, block_size=r_, parallelism=p_) for iv in ("$7$", "$scrypt$") for r_, p_ in ((64, 1), (1, 64), (65, 2), (1, 4097), (129, 1))]
         if name == "bcrypt_sha256":
             variants += [dict(base, version=1, ident="2a"), dict(base, version=1, ident="2b"), dict(base, version=2)]
         for kw in variants:
@@ -231,13 +234,40 @@ def oracle_all(ctx, o, first_only=False):
                     continue
                 st1, v1 = vc.safe_call(lambda: h.verify(text, hs, **ck))
                 st2, v2 = vc.safe_call(lambda: h.verify(raw, hs, **ck))
-                if name == "lmhash" and raw.upper() != text.upper().encode(enc):
+                try:
+                    upper_raw = text.upper().encode(enc)
+                except UnicodeEncodeError:
+                    upper_raw = None
+                if name == "lmhash" and upper_raw is None:
+                    # what lmhash hashes is the upper-cased text in the code page: text that has no such form cannot have been hashed faithfully
+                    chk(name + ":encoding-unrepresentable-refused", False, inp, "hashed: " + str(hs)[:40], "UnicodeEncodeError (the upper-cased text is not in the code page)")
+                    continue
+                if name == "lmhash" and raw.upper() != upper_raw:
                     st2, v2 = "ok", True        # recorded finding lmhash-bytes-secret-ascii-only-uppercasing: bytes are upper-cased as ASCII only
                 chk(name + ":encoding-verifies", st1 == "ok" and v1 is True and st2 == "ok" and v2 is True, inp, {"text": str(v1)[:40], "bytes": str(v2)[:40]},
                     "True for the text and for its bytes in that encoding")
                 st3, v3 = vc.safe_call(lambda: h.verify(text + "x", hs, **ck))
                 if name not in ("lmhash",) or len(text) < 14:
                     chk(name + ":encoding-near-miss", st3 == "ok" and v3 is False, inp, str(v3)[:40], "False")
+    # ---- a character the format's code page cannot represent is refused, never replaced: otherwise passwords differing only there collide
+    for name in [n for n in vc.all_names() if "encoding" in (getattr(vc.handler(n), "context_kwds", ()) or ())]:
+        h = vc.handler(name)
+        for text, twin in (("\u043f\u0430\u0440\u043e\u043b\u044c123", "\u043f\u0440\u0438\u0432\u0435\u0442123"), ("\u20ac100", "?100"), ("a\u0101b", "a?b"), ("\u5bc6\u7801", "??")):
+            for enc in (None, "cp437", "latin-1"):
+                ck = dict(vc.ctx_kwds(h), **({"encoding": enc} if enc else {}))
+                inp = {"op": "unrepresentable", "hasher": name, "encoding": enc, "secret": text, "twin": twin}
+                st, hs = vc.safe_call(lambda: h.hash(text, **ck))
+                if st == "err":
+                    chk(name + ":unrepresentable-refused-cleanly", isinstance(hs, (UnicodeEncodeError, ValueError)), inp, errname(hs), "UnicodeEncodeError")
+                    continue
+                try:
+                    text.encode(enc or "utf-8")
+                    representable = True
+                except UnicodeEncodeError:
+                    representable = False
+                st2, v2 = vc.safe_call(lambda: h.verify(twin, hs, **ck))
+                chk(name + ":unrepresentable-no-collision", (representable or name != "lmhash") and not (st2 == "ok" and v2 is True), inp, {"hash": str(hs)[:40], "twin_verifies": str(v2)[:40]},
+                    "refused, or at least not equal to a password that differs in those characters")
     # ---- exactly the library-wide maximum is an admissible password
     for name in ("md5_crypt", "sha256_crypt", "pbkdf2_sha256", "ldap_salted_sha1", "hex_sha256", "phpass", "mysql41", "nthash", "django_salted_sha1", "htdigest"):
         h = vc.handler(name)
